@@ -100,4 +100,466 @@ theorem loadNodes_ok (bucket : Nat) (numpoints : Int) :
             have e : i + 1 + j = i + (j + 1) := by omega
             rw [e] at this; exact this
 
+/-! ## insertion sort on `Int`, `k` smallest -/
+
+theorem insInt_comm (a b : Int) (l : List Int) : insInt a (insInt b l) = insInt b (insInt a l) := by
+  induction l with
+  | nil => simp only [insInt]; split <;> split <;> simp_all <;> omega
+  | cons y ys ih =>
+    simp only [insInt]
+    split <;> split <;> simp_all [insInt] <;> (try omega) <;> (repeat' split) <;> simp_all <;> omega
+
+theorem sortAsc_cons (x : Int) (l : List Int) : sortAsc (x :: l) = insInt x (sortAsc l) := rfl
+
+theorem sortAsc_perm {l1 l2 : List Int} (h : l1.Perm l2) : sortAsc l1 = sortAsc l2 := by
+  induction h with
+  | nil => rfl
+  | cons x _ ih => simp only [sortAsc_cons, ih]
+  | swap x y l => simp only [sortAsc_cons]; exact insInt_comm y x _
+  | trans _ _ ih1 ih2 => exact ih1.trans ih2
+
+theorem sortAsc_append (a b : List Int) : sortAsc (a ++ b) = a.foldr insInt (sortAsc b) := by
+  simp [sortAsc, List.foldr_append]
+
+theorem mem_insInt {x y : Int} {l : List Int} : y ∈ insInt x l ↔ y = x ∨ y ∈ l := by
+  induction l with
+  | nil => simp [insInt]
+  | cons z zs ih =>
+    simp only [insInt]; split
+    · simp
+    · simp [ih]; grind
+
+theorem length_insInt (x : Int) (l : List Int) : (insInt x l).length = l.length + 1 := by
+  induction l with
+  | nil => simp [insInt]
+  | cons z zs ih => simp only [insInt]; split <;> simp [ih]
+
+theorem mem_sortAsc {y : Int} {l : List Int} : y ∈ sortAsc l ↔ y ∈ l := by
+  induction l with
+  | nil => simp [sortAsc]
+  | cons z zs ih => rw [sortAsc_cons, mem_insInt, ih]; simp
+
+theorem length_sortAsc (l : List Int) : (sortAsc l).length = l.length := by
+  induction l with
+  | nil => simp [sortAsc]
+  | cons z zs ih => rw [sortAsc_cons, length_insInt, ih]; simp
+
+abbrev Sorted (l : List Int) : Prop := l.Pairwise (· ≤ ·)
+
+theorem sorted_insInt (x : Int) (l : List Int) (h : Sorted l) : Sorted (insInt x l) := by
+  induction l with
+  | nil => simp [insInt, Sorted]
+  | cons z zs ih =>
+    simp only [insInt]; split
+    · rename_i hlt
+      refine List.Pairwise.cons ?_ h
+      intro w hw
+      simp only [List.mem_cons] at hw
+      rcases hw with rfl | hw
+      · omega
+      · have := (List.pairwise_cons.mp h).1 w hw; omega
+    · rename_i hlt
+      have h' := List.pairwise_cons.mp h
+      refine List.Pairwise.cons ?_ (ih h'.2)
+      intro w hw
+      rcases mem_insInt.mp hw with rfl | hw
+      · omega
+      · exact h'.1 w hw
+
+theorem sorted_sortAsc (l : List Int) : Sorted (sortAsc l) := by
+  induction l with
+  | nil => simp [sortAsc, Sorted]
+  | cons z zs ih => rw [sortAsc_cons]; exact sorted_insInt z _ ih
+
+/-- inserting an element that is `≤` everything puts it (as a value) in front -/
+theorem insInt_le_all (x : Int) (l : List Int) (h : ∀ y ∈ l, x ≤ y) : insInt x l = x :: l := by
+  induction l with
+  | nil => rfl
+  | cons z zs ih =>
+    simp only [insInt]; split
+    · rfl
+    · have hz := h z (by simp)
+      have : x = z := by omega
+      subst this
+      rw [ih (fun y hy => h y (by simp [hy]))]
+
+theorem sortAsc_of_sorted (l : List Int) (h : Sorted l) : sortAsc l = l := by
+  induction l with
+  | nil => rfl
+  | cons z zs ih =>
+    have h' := List.pairwise_cons.mp h
+    rw [sortAsc_cons, ih h'.2, insInt_le_all z zs h'.1]
+
+/-- inserting an element that is `≥` a prefix passes over the prefix -/
+theorem insInt_append_ge (y : Int) (r L : List Int) (h : ∀ x ∈ r, x ≤ y) : insInt y (r ++ L) = r ++ insInt y L := by
+  induction r with
+  | nil => rfl
+  | cons x r ih =>
+    have hx := h x (by simp)
+    simp only [List.cons_append, insInt]
+    have : ¬ y < x := by omega
+    simp only [this, if_false]
+    rw [ih (fun z hz => h z (by simp [hz]))]
+
+theorem foldr_insInt_append_ge (Y r : List Int) (h : ∀ y ∈ Y, ∀ x ∈ r, x ≤ y) :
+    Y.foldr insInt r = r ++ Y.foldr insInt [] := by
+  induction Y with
+  | nil => simp
+  | cons y Y ih =>
+    simp only [List.foldr_cons]
+    rw [ih (fun y' hy' => h y' (by simp [hy']))]
+    exact insInt_append_ge y r _ (h y (by simp))
+
+/-- the first `k` elements after an insertion depend only on the first `k` elements before -/
+theorem take_insInt (b : Int) : ∀ (k : Nat) (L : List Int), (insInt b L).take k = (insInt b (L.take k)).take k := by
+  intro k
+  induction k with
+  | zero => intro L; simp
+  | succ k ih =>
+    intro L
+    cases L with
+    | nil => simp [insInt]
+    | cons x xs =>
+      simp only [List.take_succ_cons, insInt]
+      split
+      · simp only [List.take_succ_cons]
+        congr 1
+        cases k with
+        | zero => simp
+        | succ k => simp [List.take_take]
+      · simp only [List.take_succ_cons]
+        congr 1
+        exact ih xs
+
+/-- the `k` smallest, ascending -/
+def kbest (k : Nat) (l : List Int) : List Int := (sortAsc l).take k
+
+theorem kbest_perm {k : Nat} {l1 l2 : List Int} (h : l1.Perm l2) : kbest k l1 = kbest k l2 := by
+  unfold kbest; rw [sortAsc_perm h]
+
+theorem sorted_kbest (k : Nat) (l : List Int) : Sorted (kbest k l) :=
+  List.Pairwise.sublist (List.take_sublist _ _) (sorted_sortAsc l)
+
+theorem take_foldr_insInt (k : Nat) (B S : List Int) :
+    (B.foldr insInt (S.take k)).take k = (B.foldr insInt S).take k := by
+  induction B with
+  | nil => simp [List.take_take]
+  | cons b B ih =>
+    simp only [List.foldr_cons]
+    rw [take_insInt b k (B.foldr insInt (S.take k)), ih, ← take_insInt]
+
+/-- absorption: the `k` best of (the `k` best of `A`) and `B` are the `k` best of `A` and `B` -/
+theorem kbest_absorb (k : Nat) (A B : List Int) : kbest k (kbest k A ++ B) = kbest k (A ++ B) := by
+  have e1 : kbest k (kbest k A ++ B) = kbest k (B ++ kbest k A) := kbest_perm List.perm_append_comm
+  have e2 : kbest k (A ++ B) = kbest k (B ++ A) := kbest_perm List.perm_append_comm
+  rw [e1, e2]
+  unfold kbest
+  rw [sortAsc_append, sortAsc_append]
+  have : sortAsc ((sortAsc A).take k) = (sortAsc A).take k :=
+    sortAsc_of_sorted _ (List.Pairwise.sublist (List.take_sublist _ _) (sorted_sortAsc A))
+  rw [this]
+  exact take_foldr_insInt k B (sortAsc A)
+
+/-- a sorted list of at most `k` elements is its own `k` best -/
+theorem kbest_self (k : Nat) (r : List Int) (hs : Sorted r) (hl : r.length ≤ k) : kbest k r = r := by
+  unfold kbest; rw [sortAsc_of_sorted r hs]; exact List.take_of_length_le hl
+
+/-- elements that are `≥` all of `k` sorted elements do not change the `k` best -/
+theorem kbest_discard (k : Nat) (r Y : List Int) (hs : Sorted r) (hl : r.length = k)
+    (h : ∀ y ∈ Y, ∀ x ∈ r, x ≤ y) : kbest k (r ++ Y) = r := by
+  have e1 : kbest k (r ++ Y) = kbest k (Y ++ r) := kbest_perm List.perm_append_comm
+  rw [e1]; unfold kbest
+  rw [sortAsc_append, sortAsc_of_sorted r hs, foldr_insInt_append_ge Y r h]
+  rw [List.take_append_of_le_length (by omega)]
+  exact List.take_of_length_le (by omega)
+
+/-- replacing the maximum of `k` sorted elements by a new element `x ≤` that maximum -/
+theorem take_insInt_dropLast (x : Int) : ∀ (r : List Int), (∀ z, r.getLast? = some z → x ≤ z) → r ≠ [] →
+    (insInt x r).take r.length = insInt x r.dropLast := by
+  intro r
+  induction r with
+  | nil => intro _ h; exact absurd rfl h
+  | cons a r ih =>
+    intro hlast _
+    cases r with
+    | nil =>
+      have := hlast a (by simp)
+      simp only [insInt, List.length_singleton, List.dropLast_singleton]
+      split
+      · simp
+      · have : x = a := by omega
+        subst this; simp
+    | cons b rest =>
+      have hlast' : ∀ z, (b :: rest).getLast? = some z → x ≤ z := by
+        intro z hz; apply hlast z; simpa [List.getLast?_cons_cons] using hz
+      have ih' := ih hlast' (by simp)
+      simp only [insInt, List.dropLast_cons_cons, List.length_cons] at ih' ⊢
+      split
+      · rename_i hxa
+        simp only [List.take_succ_cons]
+        congr 1
+        have : (a :: b :: rest).take (rest.length + 1) = (a :: b :: rest).dropLast := by
+          rw [List.dropLast_eq_take]; simp
+        simpa using this
+      · simp only [List.take_succ_cons]
+        congr 1
+
+/-! ## the result heap as a distance list -/
+
+def dists (res : List Item) : List Int := res.map (·.1)
+
+abbrev LexSorted (res : List Item) : Prop := res.Pairwise (fun a b => lexLt b a = false)
+
+theorem le_of_lexLt_false {a b : Item} (h : lexLt b a = false) : a.1 ≤ b.1 := by
+  simp only [lexLt, Bool.or_eq_false_iff, decide_eq_false_iff_not, Bool.and_eq_false_iff, beq_eq_false_iff_ne] at h
+  omega
+
+theorem le_of_lexLt {a b : Item} (h : lexLt a b = true) : a.1 ≤ b.1 := by
+  simp only [lexLt, Bool.or_eq_true, decide_eq_true_eq, Bool.and_eq_true, beq_iff_eq] at h
+  omega
+
+theorem sorted_dists {L : List Item} (h : LexSorted L) : Sorted (dists L) := by
+  unfold dists
+  rw [Sorted, List.pairwise_map]
+  exact h.imp (fun h => le_of_lexLt_false h)
+
+theorem mem_insAsc {x y : Item} {l : List Item} : y ∈ insAsc x l ↔ y = x ∨ y ∈ l := by
+  induction l with
+  | nil => simp [insAsc]
+  | cons z zs ih =>
+    simp only [insAsc]; split
+    · simp
+    · simp [ih]; grind
+
+theorem length_insAsc (x : Item) (l : List Item) : (insAsc x l).length = l.length + 1 := by
+  induction l with
+  | nil => simp [insAsc]
+  | cons z zs ih => simp only [insAsc]; split <;> simp [ih]
+
+theorem lexLt_trans_false {a b c : Item} (h1 : lexLt a b = true) (h2 : lexLt c b = false) : lexLt c a = false := by
+  simp only [lexLt, Bool.or_eq_true, decide_eq_true_eq, Bool.and_eq_true, beq_iff_eq, Bool.or_eq_false_iff,
+    decide_eq_false_iff_not, Bool.and_eq_false_iff, beq_eq_false_iff_ne] at *
+  omega
+
+theorem lexSorted_insAsc (x : Item) (l : List Item) (h : LexSorted l) : LexSorted (insAsc x l) := by
+  induction l with
+  | nil => simp [insAsc, LexSorted]
+  | cons z zs ih =>
+    have h' := List.pairwise_cons.mp h
+    simp only [insAsc]; split
+    · rename_i hlt
+      refine List.Pairwise.cons ?_ h
+      intro w hw
+      simp only [List.mem_cons] at hw
+      rcases hw with rfl | hw
+      · simp only [lexLt, Bool.or_eq_true, decide_eq_true_eq, Bool.and_eq_true, beq_iff_eq, Bool.or_eq_false_iff,
+          decide_eq_false_iff_not, Bool.and_eq_false_iff, beq_eq_false_iff_ne] at *
+        omega
+      · exact lexLt_trans_false hlt (h'.1 w hw)
+    · rename_i hlt
+      refine List.Pairwise.cons ?_ (ih h'.2)
+      intro w hw
+      rcases mem_insAsc.mp hw with rfl | hw
+      · simpa using hlt
+      · exact h'.1 w hw
+
+theorem dists_insAsc (x i : Int) (L : List Item) (h : LexSorted L) : dists (insAsc (x, i) L) = insInt x (dists L) := by
+  induction L with
+  | nil => rfl
+  | cons z zs ih =>
+    have h' := List.pairwise_cons.mp h
+    simp only [insAsc]; split
+    · rename_i hlt
+      have hle := le_of_lexLt hlt
+      simp only [dists, List.map_cons, insInt] at hle ⊢
+      split
+      · rfl
+      · have hxz : x = z.1 := by omega
+        have hall : ∀ y ∈ List.map (·.1) zs, x ≤ y := by
+          intro y hy
+          obtain ⟨w, hw, rfl⟩ := List.mem_map.mp hy
+          have := le_of_lexLt_false (h'.1 w hw); omega
+        rw [insInt_le_all x _ hall, hxz]
+    · rename_i hlt
+      have : ¬ x < z.1 := by
+        intro hc
+        apply hlt
+        simp [lexLt, hc]
+      simp only [dists, List.map_cons, insInt, this, if_false]
+      congr 1
+      exact ih h'.2
+
+theorem topDist_eq (L : List Item) : topDist L = (match (dists L).getLast? with | some z => z | none => 0) := by
+  unfold topDist dists
+  rw [List.getLast?_map]
+  cases L.getLast? <;> rfl
+
+theorem sorted_le_last {d : List Int} (h : Sorted d) {z : Int} (hz : d.getLast? = some z) : ∀ x ∈ d, x ≤ z := by
+  induction d with
+  | nil => simp
+  | cons a d ih =>
+    have h' := List.pairwise_cons.mp h
+    cases d with
+    | nil => simp at hz; subst hz; simp
+    | cons b rest =>
+      rw [List.getLast?_cons_cons] at hz
+      intro x hx
+      simp only [List.mem_cons] at hx
+      rcases hx with rfl | hx
+      · have hb := ih h'.2 hz b (by simp)
+        have := h'.1 b (by simp); omega
+      · exact ih h'.2 hz x (by simpa using hx)
+
+/-! ## the invariant on `(tau, results)` and one visit -/
+
+def tauOf (Q : Query) (k : Nat) (res : List Item) : Int := if res.length = k then topDist res else Q.maxdist
+
+structure InvR (Q : Query) (k : Nat) (s : St) : Prop where
+  sorted : LexSorted s.res
+  len : s.res.length ≤ k
+  win : ∀ x ∈ dists s.res, inWindow Q x = true
+  tau : s.tau = tauOf Q k s.res
+
+theorem inWindow_iff (Q : Query) (x : Int) : inWindow Q x = true ↔ Q.mindist < x ∧ x ≤ Q.maxdist := by
+  simp [inWindow]
+
+/-- when the heap is full `tau` is its largest distance -/
+theorem tau_full {Q : Query} {k : Nat} {s : St} (h : InvR Q k s) (hk : 1 ≤ k) (hfull : s.res.length = k) :
+    (dists s.res).getLast? = some s.tau ∧ (∀ x ∈ dists s.res, x ≤ s.tau) ∧ s.tau ≤ Q.maxdist := by
+  have hne : dists s.res ≠ [] := by
+    intro hc
+    have h0 : (dists s.res).length = 0 := by rw [hc]; rfl
+    have h1 : (dists s.res).length = s.res.length := by simp [dists]
+    omega
+  obtain ⟨z, hz⟩ : ∃ z, (dists s.res).getLast? = some z := by
+    cases hl : (dists s.res).getLast? with
+    | none => exact absurd (List.getLast?_eq_none_iff.mp hl) hne
+    | some z => exact ⟨z, rfl⟩
+  have htau : s.tau = z := by
+    rw [h.tau, tauOf, if_pos hfull, topDist_eq, hz]
+  subst htau
+  refine ⟨hz, sorted_le_last (sorted_dists h.sorted) hz, ?_⟩
+  have := (inWindow_iff Q _).mp (h.win _ (List.mem_of_getLast? hz))
+  exact this.2
+
+theorem tau_le_maxdist {Q : Query} {k : Nat} {s : St} (h : InvR Q k s) (hk : 1 ≤ k) : s.tau ≤ Q.maxdist := by
+  by_cases hfull : s.res.length = k
+  · exact (tau_full h hk hfull).2.2
+  · rw [h.tau, tauOf, if_neg hfull]; exact Int.le_refl _
+
+/-- candidates above `tau` (or outside the window) do not change the `k` best -/
+theorem kbest_drop_irrelevant {Q : Query} {k : Nat} {s : St} (h : InvR Q k s) (hk : 1 ≤ k) (Y : List Int)
+    (hY : ∀ y ∈ Y, inWindow Q y = true → s.tau < y) :
+    kbest k (dists s.res ++ Y.filter (inWindow Q)) = dists s.res := by
+  by_cases hfull : s.res.length = k
+  · apply kbest_discard k _ _ (sorted_dists h.sorted) (by simp [dists, hfull])
+    intro y hy x hx
+    simp only [List.mem_filter] at hy
+    have := hY y hy.1 hy.2
+    have := (tau_full h hk hfull).2.1 x hx
+    omega
+  · have : Y.filter (inWindow Q) = [] := by
+      rw [List.filter_eq_nil_iff]
+      intro y hy hw
+      have h1 := hY y hy hw
+      rw [h.tau, tauOf, if_neg hfull] at h1
+      have := ((inWindow_iff Q y).mp hw).2
+      omega
+    rw [this, List.append_nil]
+    exact kbest_self k _ (sorted_dists h.sorted) (by simp [dists]; exact h.len)
+
+theorem visit_spec (Q : Query) (k : Nat) (dq : Nat → Int) (s : St) (idx : Nat) (hk : 1 ≤ k)
+    (hex : Q.exhaustive = true) (htol : Q.tol = 0) (h : InvR Q k s) :
+    InvR Q k (visit Q k dq s idx) ∧
+    dists (visit Q k dq s idx).res = kbest k (dists s.res ++ [dq idx].filter (inWindow Q)) ∧
+    (s.exit = false → (visit Q k dq s idx).exit = true →
+      (visit Q k dq s idx).res.length = k ∧ ∀ x ∈ dists (visit Q k dq s idx).res, x ≤ 0) := by
+  have hsd := sorted_dists h.sorted
+  unfold visit
+  by_cases hacc : Q.mindist < dq idx ∧ dq idx ≤ s.tau
+  · rw [if_pos hacc]
+    have hwin : inWindow Q (dq idx) = true := (inWindow_iff Q _).mpr ⟨hacc.1, Int.le_trans hacc.2 (tau_le_maxdist h hk)⟩
+    have hfilt : [dq idx].filter (inWindow Q) = [dq idx] := by simp [hwin]
+    -- the base list after the optional pop
+    have hbase_sorted : LexSorted (if s.res.length = k then s.res.dropLast else s.res) := by
+      split
+      · exact List.Pairwise.sublist (List.dropLast_sublist _) h.sorted
+      · exact h.sorted
+    have hr_sorted := lexSorted_insAsc (dq idx, (idx : Int)) _ hbase_sorted
+    have hr_dists := dists_insAsc (dq idx) (idx : Int) _ hbase_sorted
+    have hkb : kbest k (dists s.res ++ [dq idx]) = (insInt (dq idx) (dists s.res)).take k := by
+      have e : kbest k (dists s.res ++ [dq idx]) = kbest k ([dq idx] ++ dists s.res) := kbest_perm List.perm_append_comm
+      rw [e]; unfold kbest
+      rw [sortAsc_append, sortAsc_of_sorted _ hsd]; rfl
+    -- distances and length of the new heap
+    have hnew : dists (insAsc (dq idx, (idx : Int)) (if s.res.length = k then s.res.dropLast else s.res)) =
+          kbest k (dists s.res ++ [dq idx]) ∧
+        (insAsc (dq idx, (idx : Int)) (if s.res.length = k then s.res.dropLast else s.res)).length ≤ k ∧
+        ((insAsc (dq idx, (idx : Int)) (if s.res.length = k then s.res.dropLast else s.res)).length = k ∨ s.res.length ≠ k) := by
+      rw [hr_dists, hkb, length_insAsc]
+      by_cases hfull : s.res.length = k
+      · simp only [if_pos hfull]
+        have hlast := (tau_full h hk hfull).1
+        have hdl : dists s.res.dropLast = (dists s.res).dropLast := by simp [dists, List.map_dropLast]
+        have hlen : (dists s.res).length = k := by simp [dists, hfull]
+        have hne : dists s.res ≠ [] := by intro hc; rw [hc] at hlen; simp at hlen; omega
+        refine ⟨?_, ?_, ?_⟩
+        · rw [hdl, ← hlen]
+          exact (take_insInt_dropLast (dq idx) (dists s.res) (by intro z hz; rw [hlast] at hz; cases hz; exact hacc.2) hne).symm
+        · simp [List.length_dropLast]; omega
+        · left; simp [List.length_dropLast]; omega
+      · simp only [if_neg hfull]
+        have := h.len
+        refine ⟨?_, by omega, Or.inr hfull⟩
+        rw [List.take_of_length_le]
+        rw [length_insInt]; simp [dists]; omega
+    obtain ⟨hnd, hnl, hncase⟩ := hnew
+    have hnwin : ∀ x ∈ dists (insAsc (dq idx, (idx : Int)) (if s.res.length = k then s.res.dropLast else s.res)), inWindow Q x = true := by
+      intro x hx
+      rw [hr_dists] at hx
+      rcases mem_insInt.mp hx with rfl | hx
+      · exact hwin
+      · apply h.win
+        split at hx
+        · simp only [dists, List.map_dropLast] at hx
+          exact (List.dropLast_sublist _).subset hx
+        · exact hx
+    unfold accept
+    simp only [hfilt]
+    by_cases hlen : (insAsc (dq idx, (idx : Int)) (if s.res.length = k then s.res.dropLast else s.res)).length = k
+    · simp only [if_pos hlen, hex, if_true]
+      refine ⟨⟨hr_sorted, hnl, hnwin, ?_⟩, hnd, ?_⟩
+      · simp [tauOf, hlen]
+      · intro _ hexit
+        simp only [htol, decide_eq_true_eq] at hexit
+        refine ⟨hlen, ?_⟩
+        intro x hx
+        rw [topDist_eq] at hexit
+        cases hl : (dists (insAsc (dq idx, (idx : Int)) (if s.res.length = k then s.res.dropLast else s.res))).getLast? with
+        | none =>
+          have := List.getLast?_eq_none_iff.mp hl
+          rw [this] at hx; simp at hx
+        | some z =>
+          rw [hl] at hexit
+          have := sorted_le_last (sorted_dists hr_sorted) hl x hx
+          simp only at hexit
+          omega
+    · simp only [if_neg hlen]
+      have hnf : s.res.length ≠ k := by rcases hncase with h1 | h1; exact absurd h1 hlen; exact h1
+      refine ⟨⟨hr_sorted, hnl, hnwin, ?_⟩, hnd, ?_⟩
+      · show s.tau = _
+        rw [h.tau]; unfold tauOf; rw [if_neg hnf, if_neg hlen]
+      · intro he hexit
+        rw [he] at hexit; cases hexit
+  · rw [if_neg hacc]
+    refine ⟨h, ?_, ?_⟩
+    · symm
+      apply kbest_drop_irrelevant h hk
+      intro y hy hw
+      simp only [List.mem_singleton] at hy
+      subst hy
+      have := (inWindow_iff Q _).mp hw
+      omega
+    · intro he hexit; rw [he] at hexit; cases hexit
+
 end GeoVerif.VPTree
